@@ -147,4 +147,71 @@ theorem has_typed_view (cfg : Cfg) (rep : Rep) (hty : rep.ak.typed = true) (hs :
     (fun f v => by simp only [Has.sel]; rw [has_inner_eq_first cfg rep hd hh]; exact first_inner_typed cfg rep hty hf hg f v)
     (fun f v => first_last_typed (fun _ => ()) cfg rep hty hf (Or.inr (fun _ _ => rfl)) f v) x d
 
+/-! ### gen nodes and Indexed/Keyed collections: FirstFound's and Has's selections are those on plain data -/
+
+theorem untyped_facts (rep : Rep) (ha : rep.ak.typed = false) (ho : rep.ok.typed = false) :
+    rep.ok ≠ OKind.rmap ∧ rep.ok ≠ OKind.struct ∧ ∀ v, First.typedNode rep v = false := by
+  obtain ⟨ak, ok⟩ := rep
+  refine ⟨?_, ?_, ?_⟩
+  · intro h; simp only at h; subst h; simp [OKind.typed] at ho
+  · intro h; simp only at h; subst h; simp [OKind.typed] at ho
+  · intro v; cases v <;> simp_all [First.typedNode]
+
+theorem get_push_untyped_nonslice (cfg : Cfg) (rep : Rep) (ha : rep.ak.typed = false) (ho : rep.ok.typed = false)
+    (f : Frag) (hs : ∀ s e t, f ≠ .slice s e t) (v : JV) : Get.push cfg rep f v = Get.push cfg Rep.simple f v := by
+  obtain ⟨h1, h2, _⟩ := untyped_facts rep ha ho
+  obtain ⟨g1, g2, _⟩ := untyped_facts Rep.simple rfl rfl
+  have go : Rep.simple.ok.typed = false := rfl
+  cases f with
+  | slice s e t => exact absurd rfl (hs s e t)
+  | wild => cases v <;> simp [Get.push, Get.wildKids, h1, g1]
+  | filter p => cases v <;> simp [Get.push, Get.filterKids, ho, go]
+  | descent => simp [Get.push, h1, g1]
+  | _ => rfl
+
+theorem first_inner_untyped (cfg : Cfg) (rep : Rep) (ha : rep.ak.typed = false) (ho : rep.ok.typed = false)
+    (f : Frag) (v : JV) : First.inner cfg rep f v = First.inner cfg Rep.simple f v := by
+  obtain ⟨h1, h2, h3⟩ := untyped_facts rep ha ho
+  obtain ⟨g1, g2, g3⟩ := untyped_facts Rep.simple rfl rfl
+  have ga : Rep.simple.ak.typed = false := rfl
+  cases f with
+  | slice s e t => cases v <;> simp [First.inner, First.sliceInner, ha, ga]
+  | wild => cases v <;> simp [First.inner, h3, g3, Get.wildKids, h1, g1]
+  | child k => simp only [First.inner]; rw [get_push_untyped_nonslice cfg rep ha ho _ (by intro s e t h; cases h)]
+  | nth i => simp only [First.inner]; rw [get_push_untyped_nonslice cfg rep ha ho _ (by intro s e t h; cases h)]
+  | descent => simp only [First.inner]; rw [get_push_untyped_nonslice cfg rep ha ho _ (by intro s e t h; cases h)]
+  | union ms => simp only [First.inner]; rw [get_push_untyped_nonslice cfg rep ha ho _ (by intro s e t h; cases h)]
+  | filter p => simp only [First.inner]; rw [get_push_untyped_nonslice cfg rep ha ho _ (by intro s e t h; cases h)]
+
+theorem first_last_untyped (cfg : Cfg) (rep : Rep) (ha : rep.ak.typed = false) (ho : rep.ok.typed = false)
+    (f : Frag) (v : JV) : First.last cfg rep f v = First.last cfg Rep.simple f v := by
+  obtain ⟨h1, h2, _⟩ := untyped_facts rep ha ho
+  obtain ⟨g1, g2, _⟩ := untyped_facts Rep.simple rfl rfl
+  have ga : Rep.simple.ak.typed = false := rfl
+  have go : Rep.simple.ok.typed = false := rfl
+  cases f with
+  | slice s e t => cases v <;> simp [First.last, First.sliceLast, ha, ga]
+  | wild => cases v <;> simp [First.last, First.wildOne, h1, h2, g1, g2]
+  | filter p => cases v <;> simp [First.last, Get.filterKids, ho, go]
+  | _ => rfl
+
+theorem first_sel_untyped (cfg : Cfg) (rep : Rep) (ha : rep.ak.typed = false) (ho : rep.ok.typed = false) :
+    First.sel cfg rep = First.sel cfg Rep.simple := by
+  simp only [First.sel]
+  congr 1
+  · funext f v; exact first_last_untyped cfg rep ha ho f v
+  · funext f v; exact first_inner_untyped cfg rep ha ho f v
+
+theorem has_sel_untyped (cfg : Cfg) (rep : Rep) (ha : rep.ak.typed = false) (ho : rep.ok.typed = false) :
+    Has.sel cfg rep = Has.sel cfg Rep.simple := by
+  obtain ⟨h1, _, h3⟩ := untyped_facts rep ha ho
+  simp only [Has.sel]
+  congr 1
+  · funext f v; exact first_last_untyped cfg rep ha ho f v
+  · funext f v
+    obtain ⟨g1, _, g3⟩ := untyped_facts Rep.simple rfl rfl
+    simp [Has.inner, h3, g3, first_inner_untyped cfg rep ha ho, h1, g1]
+  · funext v; simp [h3, simple_untyped]
+
+
 end OjgVerif.JPath
